@@ -3,7 +3,7 @@ use super::{
     vertex_loader::VertexLoaderConfig,
     Graph, NetworkError, Vertex,
 };
-use crate::util::fs::fs_utils::line_count;
+use crate::util::fs::fs_utils::{is_gzip, line_count};
 use log::warn;
 use std::path::Path;
 
@@ -83,13 +83,8 @@ pub fn graph_from_files<P: AsRef<Path>>(
 }
 
 fn get_n_edges<P: AsRef<Path>>(edge_list_csv: &P) -> Result<usize, NetworkError> {
-    // check if the extension is .gz
-    let is_gzip = edge_list_csv
-        .as_ref()
-        .to_path_buf()
-        .extension()
-        .map(|ext| ext.to_str() == Some("gz"))
-        .unwrap_or(false);
+    // decide by content, exactly as the csv reader does (read_utils::iterator_from_csv)
+    let is_gzip = is_gzip(edge_list_csv);
     let n = line_count(edge_list_csv, is_gzip)?;
     if n < 1 {
         let msg = match edge_list_csv.as_ref().to_str() {
@@ -102,12 +97,7 @@ fn get_n_edges<P: AsRef<Path>>(edge_list_csv: &P) -> Result<usize, NetworkError>
 }
 
 fn get_n_vertices<P: AsRef<Path>>(vertex_list_csv: &P) -> Result<usize, NetworkError> {
-    let is_gzip = vertex_list_csv
-        .as_ref()
-        .to_path_buf()
-        .extension()
-        .map(|ext| ext.to_str() == Some("gz"))
-        .unwrap_or(false);
+    let is_gzip = is_gzip(vertex_list_csv);
     let n = line_count(vertex_list_csv, is_gzip)?;
     if n < 1 {
         let msg = match vertex_list_csv.as_ref().to_str() {
